@@ -93,7 +93,29 @@ def uri_targets():
     return URI_TARGETS
 
 
+MULTI = [("a", ["href", "ping"]), ("img", ["src", "longdesc", "lowsrc", "dynsrc"]), ("video", ["poster", "src"]), ("form", ["action"]),
+         ("blockquote", ["cite"]), ("table", ["background", "datasrc"]), ("input", ["src", "formaction"]), ("a", ["href", "xlink:href", "ping"])]
+HARMLESS = ["/ok", "x.html", "#frag", "?q=1", "//host/p", "http://[::1", "http://[::1]:x/", "", "http://example.com/", "mailto:a@b", " /ok", "a b"]
+
+
+def multi_uri_input(rng):
+    """Two or more URI-valued attributes on one element: schemeless or malformed values next to forbidden ones,
+    in both source orders (iteration order inside the filter is a set order)."""
+    el, names = rng.choice(MULTI)
+    names = list(names)
+    rng.shuffle(names)
+    parts = []
+    for nm in names[:rng.randint(2, len(names))] if len(names) > 1 else names:
+        v = gen_url(rng) if rng.random() < 0.5 else rng.choice(HARMLESS)
+        parts.append('%s="%s"' % (nm, v.replace('"', "&quot;")))
+    if el in ("a",) and rng.random() < 0.3:
+        return "<svg><a %s>x</a></svg>" % " ".join(parts), "multi"
+    return "<%s %s>x" % (el, " ".join(parts)), "multi"
+
+
 def directed_input(rng):
+    if rng.random() < 0.3:
+        return multi_uri_input(rng)
     tpl, attr = rng.choice(uri_targets())
     url = gen_url(rng).replace('"', "&quot;")
     style = ""
@@ -255,7 +277,9 @@ def run_case(ctx, case):
         ctx.count("streams:" + ("default-lists" if not kw else "restricted-lists"))
 
 
-SEEDS = ["<a href=\"javascript:alert(1)\">x</a>", "<a href=\"jav&#x09;ascript:alert(1)\">x", "<a href=\" &#14; javascript:alert(1)\">x",
+SEEDS = ["<a href=\"/ok\" ping=\"javascript:alert(1)\">x</a>", "<a ping=\"/ok\" href=\"javascript:alert(1)\">x</a>",
+         "<a ping=\"javascript:alert(1)\" href=\"http://[::1\">x</a>", "<a href=\"javascript:alert(1)\" ping=\"http://[::1\">x</a>",
+         "<img src=\"x.png\" longdesc=\"vbscript:x\" lowsrc=\"data:text/html,x\" dynsrc=\"\">", "<a href=\"javascript:alert(1)\">x</a>", "<a href=\"jav&#x09;ascript:alert(1)\">x", "<a href=\" &#14; javascript:alert(1)\">x",
          "<img src=\"data:text/html,x\">", "<img src=\"data:image/png;base64,AAAA\">", "<img src=\"data:,x\">", "<a href=\"javascript&colon;alert(1)\">x",
          "<svg><a xlink:href=\"javascript:alert(1)\">x</a></svg>", "<svg><use xlink:href=\"data:image/svg+xml,x\"></use>",
          "<svg xml:base=\"javascript:x\"><a xlink:href=\"#a\">", "<p style=\"background: url(javascript:alert(1))\">x", "<!--c--><script>x</script><p onclick=x>y",
